@@ -13,7 +13,7 @@ FILL = 0xAA
 ASAN_LIB = "/usr/lib/x86_64-linux-gnu/libasan.so.8"
 
 
-def _run_chunk(root, cases, workdir, tag, sanitize, timeout, max_crashes=40):
+def _run_chunk(root, cases, workdir, tag, sanitize, timeout, max_crashes=40, worker=None):
     """Run one chunk sequentially in a worker; restart after the case that killed the worker."""
     cp = os.path.join(workdir, "cases_%s.json" % tag)
     op = os.path.join(workdir, "out_%s.jsonl" % tag)
@@ -40,7 +40,7 @@ def _run_chunk(root, cases, workdir, tag, sanitize, timeout, max_crashes=40):
         guard += 1
         timed_out = False
         try:
-            p = subprocess.run([C.PY, WORKER, root, cp, op] + (["exact"] if sanitize else ["guard"]) + [str(start)],
+            p = subprocess.run([C.PY, worker or WORKER, root, cp, op] + (["exact"] if sanitize else ["guard"]) + [str(start)],
                                env=env, stdout=subprocess.PIPE, stderr=subprocess.PIPE, timeout=timeout)
         except subprocess.TimeoutExpired as e:
             # a hanging native call is an observation (counts like a crash of the case that was running), never a hung check
@@ -99,13 +99,13 @@ def _first_report_line(err):
     return err.strip()[-300:]
 
 
-def run_real(cases, workdir, sanitize=False, nproc=12, timeout=420, max_crashes=40):
+def run_real(cases, workdir, sanitize=False, nproc=12, timeout=420, max_crashes=40, worker=None, chunk=200):
     """Results of the real code for every case: ["ok", ...] | ["exc", type, msg] | ["crash"|"asan"|"ubsan", rc, report]."""
     if not cases:
         return []
     root = C.shadow(sanitize)
     os.makedirs(workdir, exist_ok=True)
-    nproc = max(1, min(nproc, (len(cases) + 199) // 200))
+    nproc = max(1, min(nproc, (len(cases) + chunk - 1) // chunk))
     size = (len(cases) + nproc - 1) // nproc
     chunks = [(k, cases[k * size:(k + 1) * size]) for k in range(nproc)]
     from concurrent.futures import ThreadPoolExecutor
@@ -114,7 +114,7 @@ def run_real(cases, workdir, sanitize=False, nproc=12, timeout=420, max_crashes=
 
     def job(kc):
         k, ch = kc
-        return k, _run_chunk(root, ch, workdir, "%s_%d" % (tagbase, k), sanitize, timeout, max_crashes)
+        return k, _run_chunk(root, ch, workdir, "%s_%d" % (tagbase, k), sanitize, timeout, max_crashes, worker)
     with ThreadPoolExecutor(nproc) as ex:
         for k, res in ex.map(job, chunks):
             out[k] = res
